@@ -1096,7 +1096,7 @@ def classify_program_violation(prog, plat, f, toks, run_events, args=None, all_r
                 if t and any(("possible" in v or "inconclusive" in v) and "intvalue" in v for v in t["values"]):
                     return "infer-minus-impossible-from-possible-ref"
     if node[0] == "V" and all_runs is not None:
-        # F22: x is assigned in a branch that does not enclose this read, and the reported fact is the truth on the executions
+        # F1a: x is assigned in a branch that does not enclose this read, and the reported fact is the truth on the executions
         # that take one side of that branch only (it holds in some UB-free run and fails in another, and the two runs differ in
         # whether that conditional assignment was the last write before the read)
         x = node[1]
